@@ -604,7 +604,7 @@ func ruleC15Hello(c *Ctx) {
 			}
 			// the values that can reach the store: decided by a value-set analysis over the branches that compare the value
 			// (through conversions) with constants, the phis, and the results of a validating helper
-			ia := &intSetAnalysis{inPkg: c.InPkg}
+			ia := &intSetAnalysis{inPkg: c.InPkg, prog: c.Prog}
 			vs := ia.at(st.Val, st.Block(), 0)
 			// the refusing side: an error reply on a way that does not reach the store
 			errorExit := false
